@@ -11,6 +11,7 @@ import (
 	"math/rand/v2"
 	"strings"
 	"sync"
+	"sync/atomic"
 	"testing"
 	"time"
 
@@ -110,7 +111,18 @@ type c22Case struct {
 	PrunedBelow  int     `json:"pruned_below,omitempty"`          // while pruned, peers have no block lower than this height
 	PrunedRounds int     `json:"pruned_rounds,omitempty"`         // requests below PrunedBelow that fail before an archival peer appears
 	FwdAtPruned  []int   `json:"forward_at_pruned_failure,omitempty"`
+	// Kind cancel: the context the backfill was started with (Syncer.Start) is cancelled at a logical point - before
+	// Start, when request #CancelAt arrives (CancelAt requests were answered before), or just after the peer produced
+	// its answer to request #CancelAt - while the peers have only served faulty / truncated answers
+	CancelAt   int    `json:"cancel_at_request,omitempty"`
+	CancelWhen string `json:"cancel_when,omitempty"` // before-start | on-arrival | after-answer
+	Cancelled  string `json:"cancelled,omitempty"`   // what the monitor saw when it cancelled the context
 }
+
+// c22CancelGrace bounds how long a scenario keeps listening for a completion signal after the start context was
+// cancelled (6 back-off periods of the client). Its expiry ends the scenario WITHOUT a verdict: a cancelled backfill
+// that never reports completion is fine.
+const c22CancelGrace = 3 * time.Second
 
 // c22Run is the live state of one scenario (store, peers, model).
 type c22Run struct {
@@ -144,6 +156,31 @@ type c22Run struct {
 	cancel       context.CancelFunc
 	stopped      bool // set once the scenario has been judged: the peers go silent and the witness is frozen
 	inflight     sync.WaitGroup
+
+	startCancel        context.CancelFunc // cancels the context handed to Syncer.Start (kind cancel)
+	cancelledCh        chan struct{}
+	cancelled          bool
+	notCoveredAtCancel bool        // at the cancellation the recorded ancestry did not reach past the minimum / genesis
+	doneBeforeCancel   bool        // Wait had already returned when the context was cancelled
+	waitReturned       atomic.Bool // set by the goroutine blocked in Syncer.Wait
+}
+
+// cancelStart cancels the context the backfill was started with (once) and records what was known at that point.
+func (s *c22Run) cancelStart(where string) {
+	s.mu.Lock()
+	if s.cancelled || s.stopped {
+		s.mu.Unlock()
+		return
+	}
+	s.cancelled = true
+	s.doneBeforeCancel = s.waitReturned.Load()
+	cov := s.lastKnownLocked()
+	s.notCoveredAtCancel = !s.fwdDone && !(cov.h == 0 || cov.ts < s.minNow)
+	s.c.Cancelled = fmt.Sprintf("start context cancelled %s; oldest recorded ancestor then %s, minimum timestamp %d, %d block(s) recorded, completion already reported=%v", where, cov, s.minNow, len(s.saved), s.doneBeforeCancel)
+	s.c.Requests = append(s.c.Requests, "-- start context cancelled "+where)
+	s.mu.Unlock()
+	s.startCancel()
+	close(s.cancelledCh)
 }
 
 // chain index seen by the TimeValidityWindow
@@ -314,9 +351,12 @@ func (s *c22Run) FetchBlocksFromPeer(ctx context.Context, _ ids.NodeID, r *vw.Bl
 	}
 	faulty := n < s.c.Faulty
 	mode := "correct"
+	cancelNow := s.c.Kind == "cancel" && !s.cancelled && n >= s.c.CancelAt
 	switch {
 	case prunedFail:
 		mode = "pruned"
+	case faulty && s.c.Kind == "cancel": // never the whole needed ancestry
+		mode = []string{"error", "error", "empty", "unparsable", "slow", "timeout", "partial", "partial", "partial", "truncated", "truncated", "reordered", "forged-first", "forged-later", "wrong-height", "duplicate"}[s.rng.IntN(16)]
 	case faulty && s.c.Silent:
 		mode = []string{"error", "error", "error", "empty", "empty", "unparsable", "slow", "slow", "timeout"}[s.rng.IntN(9)]
 	case faulty:
@@ -327,6 +367,13 @@ func (s *c22Run) FetchBlocksFromPeer(ctx context.Context, _ ids.NodeID, r *vw.Bl
 	s.c.Requests = append(s.c.Requests, fmt.Sprintf("#%d height=%d min=%d -> %s", n, r.BlockHeight, r.MinTimestamp, mode))
 	s.mu.Unlock()
 
+	if cancelNow {
+		if s.c.CancelWhen == "after-answer" { // the peer's answer is handed to a client whose context is already cancelled
+			defer s.cancelStart(fmt.Sprintf("just after the peer produced its answer to request #%d", n))
+		} else {
+			s.cancelStart(fmt.Sprintf("when request #%d arrived (%d answered before)", n, n))
+		}
+	}
 	for _, nb := range fwd {
 		// the model is updated first: UpdateSyncTarget may signal "done" (forward criterion) before it returns
 		s.mu.Lock()
@@ -443,8 +490,10 @@ func c22Gen(seed [2]uint64) (*c22Case, *rand.Rand) {
 	rng := rand.New(rand.NewPCG(seed[0], seed[1]))
 	c := &c22Case{Seed: seed}
 	switch k := rng.IntN(100); {
-	case k < 64:
+	case k < 52:
 		c22GenRandom(c, rng)
+	case k < 64:
+		c22GenCancel(c, rng)
 	case k < 83:
 		c22GenBoundary(c, rng)
 	default:
@@ -557,6 +606,56 @@ func c22GenPruned(c *c22Case, rng *rand.Rand) {
 	c.Faulty = rng.IntN(3)
 }
 
+// c22GenCancel: the window reaches back over several..all of the 7..26 blocks, at most 2 ancestors are local, every
+// request is answered by a peer that errors, is slow or serves only a truncated / partly forged ancestry, and the
+// context the backfill was started with is cancelled before Start (10%) or at request #0..4 (on arrival, or just after
+// the peer produced its answer). Sometimes consensus has moved the sync target before.
+func c22GenCancel(c *c22Case, rng *rand.Rand) {
+	c.Kind = "cancel"
+	c.W = []int64{1000, 5000, 60000}[rng.IntN(3)]
+	c.Target = 6 + rng.IntN(20)
+	nfwd := 0
+	if rng.IntN(3) == 0 {
+		nfwd = 1 + rng.IntN(2)
+	}
+	n := c.Target + 1 + nfwd
+	base := int64(rng.IntN(3)) * c.W * int64(rng.IntN(4))
+	if rng.IntN(3) == 0 {
+		base = 1_700_000_000_000
+	}
+	scale := []int64{c.W / 40, c.W / 20, c.W / 5, c.W / 2}[rng.IntN(4)]
+	ts := base
+	for i := 0; i < n; i++ {
+		if i > 0 {
+			switch rng.IntN(6) {
+			case 0:
+			case 1:
+				ts++
+			default:
+				ts += rng.Int64N(scale + 1)
+			}
+		}
+		c.TS = append(c.TS, ts)
+	}
+	if rng.IntN(3) == 0 {
+		c.Local = 1 + rng.IntN(2)
+	}
+	c.CancelAt = rng.IntN(5)
+	switch k := rng.IntN(10); {
+	case k == 0:
+		c.CancelWhen, c.CancelAt = "before-start", 0
+	case k < 6:
+		c.CancelWhen = "on-arrival"
+	default:
+		c.CancelWhen = "after-answer"
+	}
+	c.Faulty = c.CancelAt + 1 + rng.IntN(3)
+	for i := 0; i < nfwd; i++ {
+		c.Forward = append(c.Forward, rng.IntN(c.CancelAt+1))
+	}
+	sortInts(c.Forward)
+}
+
 func c22GenRandom(c *c22Case, rng *rand.Rand) {
 	c.Kind = "random"
 	c.W = []int64{1000, 5000, 60000}[rng.IntN(3)]
@@ -603,11 +702,14 @@ type c22Stats struct {
 	behaviours                                                        map[string]int
 	kinds, edge                                                       map[string]int
 	prunedFails, doneAfterMinRaised, afterCovered, sameTSFetched      int
+	// kind cancel
+	cancels, cancelNotCovered, cancelNoCompletion, cancelWaitError, cancelThenCovered, cancelAfterDone int
+	cancelWhen                                                                                         map[string]int
 }
 
 // runC22 runs one scenario to completion (logical rounds; the watchdog only yields "inconclusive").
 func runC22(c *c22Case, rng *rand.Rand, st *c22Stats) (key, detail string) {
-	s := &c22Run{c: c, rng: rng, store: map[ids.ID]*c22Blk{}, served: map[ids.ID]bool{}, behaviours: map[string]int{}, viol: make(chan [2]string, 4), edgeSeen: map[int64]int{}}
+	s := &c22Run{c: c, rng: rng, store: map[ids.ID]*c22Blk{}, served: map[ids.ID]bool{}, behaviours: map[string]int{}, viol: make(chan [2]string, 4), edgeSeen: map[int64]int{}, cancelledCh: make(chan struct{})}
 	// true chain with a few containers per block (expiries far in the future: nothing expires during the scenario)
 	parent := ids.Empty
 	itemN := 0
@@ -660,22 +762,45 @@ func runC22(c *c22Case, rng *rand.Rand, st *c22Stats) (key, detail string) {
 
 	client := vw.NewBlockFetcherClient[*c22Blk](s, c22Parser{}, c22Sampler{s})
 	s.syncer = vw.NewSyncer[c9Item, *c22Blk](s, win, client, getW)
-	if err := s.syncer.Start(ctx, target); err != nil {
+	// the backfill is started with its own context (kind cancel gives up on it); Wait is given one that stays live
+	startCtx, startCancel := context.WithCancel(ctx)
+	defer startCancel()
+	s.startCancel = startCancel
+	if c.Kind == "cancel" && c.CancelWhen == "before-start" {
+		s.cancelStart("before Start was called")
+	}
+	if err := s.syncer.Start(startCtx, target); err != nil {
 		return "C22/syncer-error", "Start: " + err.Error()
 	}
-	done := kit.Go(func() { _ = s.syncer.Wait(ctx) })
+	var waitErr error
+	done := kit.Go(func() { waitErr = s.syncer.Wait(ctx); s.waitReturned.Store(true) })
 	watchdog := time.NewTimer(4 * time.Minute)
 	defer watchdog.Stop()
-	select {
-	case v := <-s.viol:
-		cancel()
-		s.snapshot(st)
-		return v[0], v[1]
-	case <-watchdog.C:
-		cancel()
-		s.snapshot(st)
-		return "inconclusive", fmt.Sprintf("watchdog: syncer neither finished nor broke a logical bound after %d requests", len(c.Requests))
-	case <-done:
+	completed := false
+	cancelledCh := s.cancelledCh
+	var graceC <-chan time.Time
+	for waiting := true; waiting; {
+		select {
+		case v := <-s.viol:
+			cancel()
+			s.snapshot(st)
+			return v[0], v[1]
+		case <-watchdog.C:
+			cancel()
+			s.snapshot(st)
+			return "inconclusive", fmt.Sprintf("watchdog: syncer neither finished nor broke a logical bound after %d requests", len(c.Requests))
+		case <-done:
+			completed, waiting = true, false
+		case <-cancelledCh:
+			// the backfill was given up: from here on completion need not be reported any more; listen for a
+			// bounded time whether it is reported nevertheless
+			cancelledCh = nil
+			grace := time.NewTimer(c22CancelGrace)
+			defer grace.Stop()
+			graceC = grace.C
+		case <-graceC:
+			waiting = false // no verdict from time: the scenario simply ends
+		}
 	}
 	select { // a bound may have been hit in the very last round
 	case v := <-s.viol:
@@ -691,7 +816,17 @@ func runC22(c *c22Case, rng *rand.Rand, st *c22Stats) (key, detail string) {
 	saved := append([]*c22Blk(nil), s.saved...)
 	minFinal, fwdDone, latest := s.minNow, s.fwdDone, s.latest
 	forged := append([]c9Item(nil), s.forgedIt...)
+	cancelled, notCoveredAtCancel, doneBeforeCancel := s.cancelled, s.notCoveredAtCancel, s.doneBeforeCancel
 	s.mu.Unlock()
+	if cancelled {
+		st.mu.Lock()
+		st.cancels++
+		st.cancelWhen[c.CancelWhen]++
+		if notCoveredAtCancel {
+			st.cancelNotCovered++
+		}
+		st.mu.Unlock()
+	}
 
 	// (1) what was recorded is exactly the hash-linked ancestry, in order, never past the minimum
 	for i, b := range saved {
@@ -706,10 +841,24 @@ func runC22(c *c22Case, rng *rand.Rand, st *c22Stats) (key, detail string) {
 	if localComplete && len(saved) > 0 {
 		return "C22/saved-beyond-window", fmt.Sprintf("the local blocks already covered the window (oldest %s, minimum %d) but %d blocks were fetched", oldest, c.MinInitial, len(saved))
 	}
-	// (2) done means: the window is covered back past the minimum or to genesis (or consensus filled it going forward)
 	last := oldest
 	if len(saved) > 0 {
 		last = saved[len(saved)-1]
+	}
+	// a backfill whose start context was cancelled may end with an error or never report completion: no verdict
+	if !completed || waitErr != nil {
+		st.mu.Lock()
+		if completed {
+			st.cancelWaitError++
+		} else {
+			st.cancelNoCompletion++
+		}
+		st.mu.Unlock()
+		return "", ""
+	}
+	// (2) done means: the window is covered back past the minimum or to genesis (or consensus filled it going forward)
+	if cancelled && !doneBeforeCancel && !fwdDone && !(last.h == 0 || last.ts < minFinal) {
+		return "C22/done-after-cancel-before-window-covered", fmt.Sprintf("%s; afterwards Wait returned nil (backfill complete) although the oldest known ancestor is %s, not older than the minimum timestamp %d of the current target %s and not genesis: the ancestors below height %d that lie inside the window were never recorded or tracked - a cancelled, incomplete backfill reports successful completion", c.Cancelled, last, minFinal, latest, last.h)
 	}
 	if !fwdDone && last.h != 0 && last.ts == minFinal {
 		return "C22/done-with-oldest-block-on-window-edge", fmt.Sprintf("syncer reported done but the oldest known ancestor %s has exactly the minimum timestamp %d of the current target %s: it sits ON the lower edge of the window, not past it - ancestors sharing that timestamp and the first older block were never fetched, recorded or tracked", last, minFinal, latest)
@@ -766,6 +915,11 @@ func runC22(c *c22Case, rng *rand.Rand, st *c22Stats) (key, detail string) {
 	if fwdDone {
 		st.fwdDone++
 	}
+	if cancelled && doneBeforeCancel {
+		st.cancelAfterDone++
+	} else if cancelled {
+		st.cancelThenCovered++
+	}
 	if len(saved) == 0 && localComplete {
 		st.immediate++
 	}
@@ -800,7 +954,7 @@ func (s *c22Run) snapshot(st *c22Stats) {
 	st.fwdTargets += s.fwdNext + s.fwdPNext
 	st.prunedFails += s.prunedFails
 	st.afterCovered += s.afterCovered
-	if s.c.Kind != "random" {
+	if s.c.Kind == "boundary" || s.c.Kind == "pruned" {
 		for d, k := range s.edgeSeen {
 			switch {
 			case d < -1:
@@ -820,7 +974,7 @@ func (s *c22Run) snapshot(st *c22Stats) {
 
 func (c *c22Case) shape() string {
 	var b strings.Builder
-	fmt.Fprintf(&b, "%s w%d t%d l%d f%d g%v e%v p%d/%d/%v:", c.Kind, c.W, c.Target, c.Local, c.Faulty, c.GenesisIn, c.EdgeDeltas, c.PrunedBelow, c.PrunedRounds, c.FwdAtPruned)
+	fmt.Fprintf(&b, "%s w%d t%d l%d f%d g%v e%v p%d/%d/%v c%d/%s/%v:", c.Kind, c.W, c.Target, c.Local, c.Faulty, c.GenesisIn, c.EdgeDeltas, c.PrunedBelow, c.PrunedRounds, c.FwdAtPruned, c.CancelAt, c.CancelWhen, c.Cancelled != "")
 	for _, r := range c.Requests {
 		if i := strings.LastIndex(r, "-> "); i >= 0 {
 			b.WriteString(r[i+3:])
@@ -833,12 +987,13 @@ func (c *c22Case) shape() string {
 
 func TestC22(t *testing.T) {
 	r := kit.Start(t, "C22", "fault_enumeration")
-	r.Rule("scenario = true chain of 3..26 hash-identified, byte-encoded blocks (timestamp steps 0, 1, up to 2 windows; bases near 0 and realistic; windows 1/5/60 s, so genesis lies inside or outside the window), sync target with 0..target-1 ancestors already local, real Syncer + BlockFetcherClient; every request is answered by a scripted peer whose behaviour the PRNG picks for the first 0..6 requests (correct, partial, truncated bytes, reordered, forged-but-parsable first/later block, unparsable, empty, error, slow, timeout, wrong height, ignoring the minimum incl. genesis, duplicated block, no peer sampled) and by the real BlockFetcherHandler afterwards; consensus moves the sync target (UpdateSyncTarget) between chosen requests. Oracle: blocks given to SaveHistorical are exactly the true ancestors below the oldest local block, in order, none after a block older than the minimum (or genesis); done implies the oldest known ancestor is older than the current minimum or is genesis (or the forward criterion holds); IsRepeat probes of every container of the true chain and of every forged block equal the model set; requested heights never increase and never pass genesis; with correct peers the backfill is done within (blocks to fetch + 2) requests (requests for blocks every honest peer pruned not counted); at most 2 requests are issued once the recorded ancestry already reaches back past the current minimum. 19% of the scenarios are boundary scenarios: the local blocks L..T do not cover the window, 0..3 ancestors below L share L's timestamp and carry transactions, the first requests are only answered by silent/slow peers (error, empty, unparsable, slow, timeout) while consensus delivers sync targets with timestamps L.ts + window - 1 / + 0 / + 1 (usually one per request), then peers turn correct. 17% are pruned-peer scenarios: peers hold nothing below a height P (real handler over a pruned store: partial answers down to P, error/empty below), the node fetches L-1..P, requests for P-1 fail, and at a chosen failing request consensus moves the target so that the minimum lands on P.ts (P on the edge: an archival peer appears 3..4 failures later) or past it (nothing more is needed; peers stay pruned). All bounds are logical request counts. Non-trivial = at least one request was made; distinct = distinct (parameters, behaviour sequence, saved heights).")
+	r.Rule("scenario = true chain of 3..26 hash-identified, byte-encoded blocks (timestamp steps 0, 1, up to 2 windows; bases near 0 and realistic; windows 1/5/60 s, so genesis lies inside or outside the window), sync target with 0..target-1 ancestors already local, real Syncer + BlockFetcherClient; every request is answered by a scripted peer whose behaviour the PRNG picks for the first 0..6 requests (correct, partial, truncated bytes, reordered, forged-but-parsable first/later block, unparsable, empty, error, slow, timeout, wrong height, ignoring the minimum incl. genesis, duplicated block, no peer sampled) and by the real BlockFetcherHandler afterwards; consensus moves the sync target (UpdateSyncTarget) between chosen requests. Oracle: blocks given to SaveHistorical are exactly the true ancestors below the oldest local block, in order, none after a block older than the minimum (or genesis); done implies the oldest known ancestor is older than the current minimum or is genesis (or the forward criterion holds); IsRepeat probes of every container of the true chain and of every forged block equal the model set; requested heights never increase and never pass genesis; with correct peers the backfill is done within (blocks to fetch + 2) requests (requests for blocks every honest peer pruned not counted); at most 2 requests are issued once the recorded ancestry already reaches back past the current minimum. 19% of the scenarios are boundary scenarios: the local blocks L..T do not cover the window, 0..3 ancestors below L share L's timestamp and carry transactions, the first requests are only answered by silent/slow peers (error, empty, unparsable, slow, timeout) while consensus delivers sync targets with timestamps L.ts + window - 1 / + 0 / + 1 (usually one per request), then peers turn correct. 17% are pruned-peer scenarios: peers hold nothing below a height P (real handler over a pruned store: partial answers down to P, error/empty below), the node fetches L-1..P, requests for P-1 fail, and at a chosen failing request consensus moves the target so that the minimum lands on P.ts (P on the edge: an archival peer appears 3..4 failures later) or past it (nothing more is needed; peers stay pruned). 12% are cancellation scenarios: the window reaches back over several..all of 7..26 blocks, at most 2 ancestors are local, every request is answered by a peer that errors, is silent/slow or serves only a partial / truncated / partly forged / misordered ancestry, and the context Syncer.Start was called with is cancelled at a PRNG-chosen logical point - before Start, when request #k arrives (k = 0..4 requests answered before), or just after the peer produced its answer to request #k (the client processes that answer under a cancelled context) - sometimes after consensus moved the sync target; Wait is given a context that stays live. Oracle there: if Wait returns nil after the cancellation, the completion clauses above must hold (oldest recorded ancestor older than the current minimum or genesis, tracked set = model), else C22/done-after-cancel-before-window-covered; an error from Wait or no completion within 6 client back-off periods (3 s) ends the scenario without a verdict. All bounds are logical request counts. Non-trivial = at least one request was made or the start context was cancelled; distinct = distinct (parameters, behaviour sequence, cancellation point, saved heights).")
 	r.Assume("containers expire far in the future, so the tracked set is exactly the union of the blocks handed to the window",
 		"the forward criterion (new target MORE than one window newer than the oldest local block, i.e. that block is older than the target's minimum timestamp) is accepted as completing the window: it is the statement's 'back past the validity window' applied to the blocks the node already has; a target exactly one window newer leaves that block ON the edge and completes nothing",
 		"'completes once some peer serves the real ancestry' is judged in logical rounds: the blocks handed to SaveHistorical are a subset of what the client accepted, so once the last of them is older than the current minimum nothing more is needed; 2 further requests are tolerated, the 3rd is C22/not-done-after-window-covered. A peer that pruned a block answers with an error or an empty response",
+		"a backfill whose start context was cancelled before the window was covered owes nothing further: it may report an error or never complete (the unchanged syncer never completes and Wait blocks until its own context ends); only a nil from Wait is read as 'the backfill completed'. The 3 s listening period after a cancellation limits what the monitor can see, its expiry is never a verdict",
 		"a 4 minute watchdog per scenario only ever yields inconclusive")
-	st := &c22Stats{behaviours: map[string]int{}, kinds: map[string]int{}, edge: map[string]int{}}
+	st := &c22Stats{behaviours: map[string]int{}, kinds: map[string]int{}, edge: map[string]int{}, cancelWhen: map[string]int{}}
 
 	judge := func(seed [2]uint64) {
 		c, rng := c22Gen(seed)
@@ -853,7 +1008,7 @@ func TestC22(t *testing.T) {
 		}
 		if len(c.Requests) > 0 {
 			r.Distinct(c.shape())
-			if c.Faulty > 2 {
+			if c.Faulty > 2 && (c.Kind != "cancel" || c.CancelAt > 1) {
 				r.Sample(c)
 			}
 		}
@@ -921,5 +1076,14 @@ func TestC22(t *testing.T) {
 	r.Count("backfills_done_after_the_minimum_was_raised", st.doneAfterMinRaised)
 	r.Count("requests_issued_after_the_window_was_covered", st.afterCovered)
 	r.Count("fetched_ancestors_sharing_the_oldest_local_timestamp", st.sameTSFetched)
+	r.Count("start_context_cancellations", st.cancels)
+	r.Count("start_context_cancelled_while_window_not_covered", st.cancelNotCovered)
+	r.Count("cancelled_backfills_that_never_reported_completion", st.cancelNoCompletion)
+	r.Count("cancelled_backfills_ending_with_an_error", st.cancelWaitError)
+	r.Count("cancelled_backfills_reporting_completion_with_the_window_covered", st.cancelThenCovered)
+	r.Count("start_context_cancelled_after_completion_was_reported", st.cancelAfterDone)
+	for k, v := range st.cancelWhen {
+		r.Count("start_context_cancelled_"+k, v)
+	}
 	r.Finish(r.N(800, 20000))
 }
